@@ -61,6 +61,18 @@ RoundTrip == msg # NoMsg =>
    /\ r.outcome = "returned" /\ r.errs = <<>> /\ r.warns = <<>>
    /\ Len(r.msgs) = 1
    /\ NormMsgM(r.msgs[1], <<>>) = NormMsgJ(msg)
+\* C16 at model level: the variable list of the item is exactly the names that appear in the printed form, in that order
+\* (the Variable and Ellipsis tokens the lexer model finds in the printer model's text), no name twice, and the item is
+\* encodable iff there is none; the reported size is the number of elements printed
+PrintedNames(text) == LET ts == SelectSeq(Lx(text)!Tokens, LAMBDA x : x.t \in {"Variable", "Ellipsis"}) IN [i \in 1..Len(ts) |-> ts[i].v]
+VarsPrinted == (msg # NoMsg /\ msg.item.f # "none") =>
+   LET names == PrintedNames(PrintMsg(msg)) IN
+   \* (a repeat marker is printed without its number: ...[2] appears as ... - position and order are what is compared)
+   /\ [i \in 1..Len(Vars(msg.item)) |-> IF IsEllipsisName(Vars(msg.item)[i]) THEN <<46, 46, 46>> ELSE Vars(msg.item)[i]]
+        = [i \in 1..Len(names) |-> IF IsEllipsisName(names[i]) THEN <<46, 46, 46>> ELSE names[i]]
+   /\ NoDup(Vars(msg.item))
+   /\ Encodable(msg.item) = (names = <<>>)
+   /\ (ItemBytes(msg.item) # <<>>) = (names = <<>>)
 \* TLC -> Go: every message of the scope with the text the printer model writes for it
 EmitCase == msg = NoMsg \/ PrintT("CASE " \o ToJson([msg |-> msg, text |-> PrintMsg(msg)]))
 \* printing the parsed message gives the same text again (fixed point), with the parsed message mapped back to the printer's shape
